@@ -291,69 +291,26 @@ def _install_readdir(ctx, eng, entries):
         return [Outcome(ok(p.attrs["name"]), events=[Event("filename", [], "ok")]),
                 Outcome(err("anyhow::Error"), events=[Event("filename", [], "err")])]
     S(r"^filename$", s_filename)
-    S(r"^ls_file_dir$", lambda e, st, c, a, d: [Outcome(ok(OpaqueV("ReadDir", None, {"entries": list(entries)})), events=[Event("read_dir", [], "ok")]),
+    S(r"^ls_file_dir$", lambda e, st, c, a, d: [Outcome(ok(OpaqueV("ReadDir", None, {"items": [AggV("Result", 0, [x], "Ok") for x in entries]})), events=[Event("read_dir", [], "ok")]),
                                                  Outcome(err("anyhow::Error"), events=[Event("read_dir", [], "err")])])
-    S(r"^<ReadDir as Iterator>::filter_map::<", lambda e, st, c, a, d: Outcome(OpaqueV("FilterMap", None, {"entries": a[0].attrs["entries"], "f": a[1]})))
-    S(r"^(std::fs::)?DirEntry::path$", lambda e, st, c, a, d: Outcome(OpaqueV("PathBuf", "path_of_" + deref_ref(e, st, a[0]).name, {"name": deref_ref(e, st, a[0]).attrs["name"]})))
     front = lambda rx, h: eng.add_summary(rx, h, front=True)
     front(r"^<(std::path::)?PathBuf as Deref>::deref$", lambda e, st, c, a, d: Outcome(a[0]))
     front(r"^<(std::string::)?String as Deref>::deref$", lambda e, st, c, a, d: Outcome(a[0]))
+    S(r"^(std::fs::)?DirEntry::path$", lambda e, st, c, a, d: Outcome(OpaqueV("PathBuf", "path_of_" + deref_ref(e, st, a[0]).name, {"name": deref_ref(e, st, a[0]).attrs["name"]})))
+    S(r"^(std::fs::)?DirEntry::file_name$", lambda e, st, c, a, d: Outcome(deref_ref(e, st, a[0]).attrs["name"]))
+    # paths of one directory are ordered by their file names (bytewise)
+    eng.order_key = lambda e, st, x, y: v_lex_le(deref_ref(e, st, x).attrs["name"].attrs["t"], deref_ref(e, st, y).attrs["name"].attrs["t"])
 
-    def closure_fn(eng, clo):
-        for name, fn in eng.funcs.items():
-            if "{closure#" in name and fn.args and isinstance(clo, AggV) and clo.ty in fn.args[0][1]:
-                return fn
-        raise EngineAbort("closure body not found for %r" % (clo,))
 
-    def fold(eng, st, it, combine, init):
-        """apply the closure to every entry (forking), folding the results"""
-        fn = closure_fn(eng, it.attrs["f"])
-        work = [(st, init)]
-        for ent in it.attrs["entries"]:
-            nxt = []
-            for s_, acc in work:
-                if s_.status != "running":
-                    nxt.append((s_, acc))
-                    continue
-                s_.ghost["acc"] = acc
-                s_.ghost["clo"] = it.attrs["f"]
-                arg = AggV("Result", 0, [ent], "Ok")
-                for s2, r in eng.call_sync(s_, fn, [RefV(Cell(s_.ghost["clo"])), arg]):
-                    if s2.status != "running":
-                        nxt.append((s2, None))
-                        continue
-                    nxt.append((s2, combine(s2.ghost.pop("acc"), r)))
-            work = nxt
-        return work
-
-    def s_max(eng, st, callee, args, dty):
-        def comb(acc, r):
-            if r.vname == "None":
-                return acc
-            v = r.fields[0]
-            if acc is None:
-                return ("some", v.t, [v])
-            return ("some", z3.If(v.t > acc[1], v.t, acc[1]), acc[2] + [v])
-        outs = []
-        for s2, acc in fold(eng, st, args[0], comb, None):
-            if s2.status != "running":
-                outs.append((s2, None, []))
-            elif acc is None:
-                outs.append((s2, AggV("Option", 0, [], "None"), []))
-            else:
-                s2.ghost["recognised"] = acc[2]
-                outs.append((s2, AggV("Option", 1, [IntV(acc[1], "u64")], "Some"), []))
-        return ("states", outs)
-    S(r"^<FilterMap<ReadDir, .*> as Iterator>::max$", s_max)
-
-    def s_any(eng, st, callee, args, dty):
-        rd = deref_ref(eng, st, args[0])
-        it = OpaqueV("Any", None, {"entries": rd.attrs["entries"], "f": args[1]})
-        outs = []
-        for s2, acc in fold(eng, st, it, lambda acc, r: z3.Or(acc, r.t), z3.BoolVal(False)):
-            outs.append((s2, BoolV(acc) if acc is not None else None, []))
-        return ("states", outs)
-    S(r"^<ReadDir as Iterator>::any::<", s_any)
+def v_lex_le(a, b):
+    """a <= b in lexicographic (code point) order"""
+    n = max(a.n(), b.n())
+    cases = [v_eq(a, b)]
+    for k in range(n):
+        same_before = z3.And(*[z3.And(j < a.len, j < b.len, a.at(j) == b.at(j)) for j in range(k)]) if k else z3.BoolVal(True)
+        cases.append(z3.And(same_before, a.len == k, b.len > k))                       # a is a proper prefix of b
+        cases.append(z3.And(same_before, k < a.len, k < b.len, a.at(k) < b.at(k)))      # first difference decides
+    return z3.Or(*cases)
 
 
 def lemma_next_backup_num(ctx):
